@@ -290,6 +290,9 @@ func propC03(c *Check) {
 	sizeFact("x/bitcoin/types.MsgReplaceWithdrawal.Validate", "NewNoWitnessTx")
 	sizeFact("x/bitcoin/types.MsgNewConsolidation.Validate", "NoWitnessTx")
 
+	// R6: the coinbase rule is sound only if position 0 cannot be presented under another index
+	c.Rule("R6", "dependency: the SPV check binds the claimed position (C04/R3), otherwise a coinbase can be presented under a non-zero index and skip the maturity rule")
+	c.positionBound("R6")
 	// writers of Deposited
 	c.checkWriters("R3", "x/bitcoin/keeper", "Deposited", map[string]string{
 		"x/bitcoin/keeper.msgServer.NewDeposits": "Set",
@@ -392,8 +395,7 @@ func propC04(c *Check) {
 		c.Held("R2", "result @ "+FuncKey(vm), p.Pos(vm.Pos()), "true only via bytes.Equal(current, root)")
 	}
 	// R3 position bound
-	bound := lit(EQ("0", idx)) + `|^\(\(\$3 >> .*\) == 0\)$|^\(0 == \(\$3 >> .*\)\)$|^\(\$3 < \(1 << .*\)\)$`
-	c.RequireFact(vm, "R3", "position<2^len(path)", bound, nil, "")
+	c.positionBound("R3")
 
 	// R4 callers
 	cg := p.CG()
@@ -426,6 +428,17 @@ func propC04(c *Check) {
 	c.Floor("R4", "VerifyMerkelProof callers", n, 2)
 	fv := p.MustFn("x/bitcoin/types.MsgFinalizeWithdrawal.Validate")
 	c.RequireFact(fv, "R4", "withdrawal-not-coinbase", lit("($0.TxIndex != 0)"), nil, "")
+}
+
+// positionBound: a true result of VerifyMerkelProof requires position < 2^len(path).
+// Accepted forms: the shifted position is zero after the loop; (position >> levels) == 0; position < 1<<levels.
+func (c *Check) positionBound(rule string) {
+	p := c.p
+	vm := p.MustFn("x/bitcoin/types.VerifyMerkelProof")
+	idx := "φ{$3|(@ >> 1)}"
+	lv := `\(len\(\$2\) / 32\)`
+	bound := lit(EQ("0", idx)) + `|^\(0 == \(\$3 >> ` + lv + `\)\)$|^\(\$3 < \(1 << ` + lv + `\)\)$`
+	c.RequireFact(vm, rule, "position<2^len(path)", bound, nil, "")
 }
 
 func propC20(c *Check) {
